@@ -117,6 +117,7 @@ type workerOut struct {
 	logPath   string
 	timedOut  bool
 	exitErr   error
+	poisoned  int
 }
 
 func parseOut(path string, wo *workerOut) {
@@ -142,6 +143,8 @@ func parseOut(path string, wo *workerOut) {
 			}
 		case line == "DONE":
 			wo.done = true
+		case strings.HasPrefix(line, "POISONED "):
+			wo.poisoned, _ = strconv.Atoi(line[9:])
 		}
 	}
 }
@@ -331,7 +334,7 @@ func main() {
 	outs := make([]*workerOut, workers)
 	var wg sync.WaitGroup
 	for k := 0; k < workers; k++ {
-		wo := &workerOut{k: k, started: map[int]bool{}, finished: map[int]bool{}, lastStart: -1}
+		wo := &workerOut{k: k, started: map[int]bool{}, finished: map[int]bool{}, lastStart: -1, poisoned: -1}
 		outs[k] = wo
 		wg.Add(1)
 		go func(k int, wo *workerOut) {
@@ -350,6 +353,17 @@ func main() {
 	inconclusive := []string{}
 	for _, wo := range outs {
 		all = append(all, wo.results...)
+		// a case that leaked a mutex abandons its process on purpose: restart the worker after it
+		for restarts := 0; !wo.done && wo.poisoned >= 0 && restarts < 200; restarts++ {
+			rest := filepath.Join(runDir, fmt.Sprintf("w%d.p%d.out", wo.k, restarts))
+			env := append(append([]string{}, baseEnv...), fmt.Sprintf("VERIF_WORKER=%d", wo.k), "VERIF_OUT="+rest, fmt.Sprintf("VERIF_SKIP_UNTIL=%d", wo.poisoned))
+			wo2 := &workerOut{k: wo.k, started: map[int]bool{}, finished: map[int]bool{}, lastStart: -1, poisoned: -1}
+			wo2.logPath = filepath.Join(runDir, fmt.Sprintf("w%d.p%d.log", wo.k, restarts))
+			wo2.timedOut, wo2.exitErr = runChild(bin, env, wo2.logPath, watchdog)
+			parseOut(rest, wo2)
+			all = append(all, wo2.results...)
+			wo = wo2
+		}
 		if wo.done {
 			continue
 		}
